@@ -50,9 +50,10 @@ OSpec == OInit /\ [][ONext]_ovars
 Integrity == \A c \in Conn, d \in Dirs : orcvd[c][d] <= osent[c][d]
 NoLossOnClose == \A c \in Conn, d \in Dirs : (oeof[c][d] /\ ofirst[c] = d /\ ~oabort[c]) => orcvd[c][d] = osent[c][d]
 \* the end-of-scenario condition used on recorded runs
-Settled(judgeClose, serverOpen) ==
+Settled(judgeClose, serverOpen, fdsLeaked) ==
   /\ (judgeClose => \A c \in Conn, d \in Dirs : ofirst[c] = d => oeof[c][d])
   /\ \A c \in Conn, d \in Dirs : ~oabort[c] => orcvd[c][d] = osent[c][d]    \* (graceful closers keep reading)
   /\ (judgeClose => \A c \in Conn, d \in Dirs : (ofirst[c] # "" /\ ofirst[c] # d /\ ~oabort[c] /\ oclosed[c][d]) => oeof[c][d])
   /\ (judgeClose => serverOpen = 0)
+  /\ (judgeClose => fdsLeaked = 0)       \* the bridge processes hold no descriptor of a connection whose endpoints are gone
 =============================================================================
